@@ -227,6 +227,16 @@ def execute(node, case, rec, opts):
             rec.probe("materialised_reference_not_constructible")
             lslots.append(None); eslots.append(None)
             continue
+        try:
+            operand_invalid = node.text(em, 3) != b""
+        except NodeError:
+            operand_invalid = True
+        if operand_invalid:
+            # the materialised operand is not a valid layout (an earlier lazy result hid an unsimplified nesting behind a
+            # VirtualArray - reported at that operation): nothing meaningful to compare from here on for this slot
+            rec.probe("materialised_operand_is_not_a_valid_layout")
+            lslots.append(None); eslots.append(None)
+            continue
         if op["op"] == "combinations" and node.length(em) > 12:
             lslots.append(None); eslots.append(None)
             continue
@@ -352,7 +362,10 @@ def execute(node, case, rec, opts):
             # equal values are not everything: the lazy result must also be a layout that later operations accept
             # whenever the eager one is (an option inside an option reads fine but sorts and fills wrongly)
             try:
-                ve, vl = node.text(eo[2], 3), node.text(lo_[2], 3)
+                ve = node.text(eo[2], 3)
+                lm = node.materialise(lo_[2])        # validityerror cannot see through a VirtualArray
+                vl = node.text(lm, 3)
+                node.drop(lm)
             except NodeError:
                 ve, vl = b"?", b"?"
             if ve != b"" and ve != b"?":
@@ -732,6 +745,11 @@ def match_predicate(where, case, violation):
         def has_newaxis(e):
             return any(it.get("k") == "newaxis" for it in ((e.get("op") or {}).get("items") or []))
         return any(has_newaxis(e) for e in case.get("events", [])) and "record" in lg.node_classes(case["truth"])
+    if where.get("kind") == "empty_advanced_index_over_union":
+        det = violation.get("detail") or {}
+        items = ((det.get("event") or {}).get("op") or {}).get("items") or []
+        classes = (det.get("facts") or {}).get("classes") or []
+        return any(it.get("k") == "ints" and it.get("v") == [] for it in items) and any(c.startswith("UnionArray") for c in classes)
     if where.get("kind") == "error_contains":
         err = (violation.get("detail") or {}).get("error") or []
         return any(isinstance(x, str) and where["text"] in x for x in err)
